@@ -28,7 +28,7 @@ ALLV = "fresh,reloaded,second,reloaded2,multi,multi,sharedctx,json"
 # property -> (batches, antecedent marks, what makes a trace non-trivial)
 # batch = (profile, cases at quick tier, extra harness arguments)
 PLAN = {
-    "C01": ([("pattern", 2, []), ("patternx", 1, []), ("core", 500, ["-variants", ALLV]), ("memo", 300, ["-variants", ALLV]), ("control", 120, []),
+    "C01": ([("pattern", 2, []), ("patternx", 1, []), ("patterne", 1, []), ("core", 500, ["-variants", ALLV]), ("memo", 300, ["-variants", ALLV]), ("control", 120, []),
              ("fault", 200, ["-calls", "3", "-flagp", "0.3"])],
             ["C01"], "a rule that was a candidate in the previous cycle is evaluated again after an action made its condition false"),
     "C02": ([("pattern", 2, []), ("patternx", 1, []), ("patterne", 1, []), ("core", 500, ["-variants", ALLV]), ("memo", 300, ["-variants", ALLV]), ("salience", 120, []),
